@@ -42,6 +42,8 @@ def run(ctx):
 
 
 def replay(data):
+    if lexeme.is_encoder_record(data):
+        return lexeme.replay_encoder("C17", data)
     if str(data.get("obligation", "")).startswith("regex:"):
         from . import regexsec
         return regexsec.replay("C17", data)
